@@ -307,6 +307,18 @@ def conc_check(ctx, module, theorems, props, what, assumptions, extra_quick=('ca
         "implementation_failures": nfail, "lean_differences": diffs, "non_linearizable_histories": nonlin,
         "asan_processes": getattr(ctx, "asan_runs", 0),
     })
+    # a few actual lines of this run (schedule line | implementation answer | model answer)
+    prefix = "pin " if "C08" in props else "ifl " if "C20" in props else "conc "
+    samples = []
+    for o in outs:
+        if "crash" in o:
+            continue
+        block = [(a, b, c) for a, b, c in zip(o["ops"], o["impl"], o["model"]) if a.startswith(prefix)][:14]
+        if block:
+            samples.append(["%s | impl: %s | model: %s" % x for x in block])
+            break
+    cov["samples"] = samples
+    cov["traces_validated_against_impl"] = cases + sum(1 for o in outs if "crash" not in o for a in o["ops"] if a in ("pin new", "ifl new"))
     if pre_finish:
         pre_finish(ctx, cov)
     return finish(ctx, "proof", cov, assumptions)
